@@ -91,8 +91,8 @@ func genC08(rng *rand.Rand, c *Case) {
 			off = rng.Intn(size + 1)
 		}
 		preview := 0
-		if off < 0 && rng.Intn(5) == 0 {
-			preview = 1
+		if (off < 0 && rng.Intn(5) == 0) || (off >= 0 && rng.Intn(6) == 0) {
+			preview = 1 // also together with a resume offset: the bare data from that offset
 		}
 		c.Ops = append(c.Ops, Op{C: rng.Intn(c.Cfg["clients"]), K: "get", N: []int{fi, off, preview}})
 	}
@@ -164,15 +164,18 @@ func runC08(w *World) {
 				s := res.Stream
 				if preview {
 					w.Probe("preview_downloads")
-					if int(res.XferSize) != len(f.data) {
-						w.Violate("c08-preview-transfer-size", "%s: reply field 108 is %d, want the data size %d", what, res.XferSize, len(f.data))
+					if op.N[1] >= 0 {
+						w.Probe("preview_with_resume_offset")
 					}
-					if !bytes.Equal(s, f.data) {
+					if int(res.XferSize) != len(remaining) {
+						w.Violate("c08-preview-transfer-size", "%s: reply field 108 is %d, want the remaining data size %d", what, res.XferSize, len(remaining))
+					}
+					if !bytes.Equal(s, remaining) {
 						sig := "c08-preview-not-bare-data"
-						if bytes.HasPrefix(s, f.data) {
+						if bytes.HasPrefix(s, remaining) {
 							sig = "c08-preview-trailing-bytes"
 						}
-						w.Violate(sig, "%s: a preview must carry the bare data only; stream has %d bytes (data %d, common prefix %d, trailing %q)", what, len(s), len(f.data), commonPrefix(string(s), string(f.data)), Short(s[min(len(s), len(f.data)):]))
+						w.Violate(sig, "%s: a preview must carry the bare data (from the offset) only; stream has %d bytes (remaining data %d, common prefix %d, trailing %q)", what, len(s), len(remaining), commonPrefix(string(s), string(remaining)), Short(s[min(len(s), len(remaining)):]))
 					}
 					continue
 				}
